@@ -144,6 +144,81 @@ type cssModel struct {
 	ops             map[*ssa.Function][]stackOp
 	pushTargets     map[ssa.Instruction][]*ssa.Function
 	pushed, bottom  map[*ssa.Function]bool
+	events          map[ssa.Instruction][]pushEvent
+}
+
+// pushEvent: one way a push happens — the chain of call sites that leads from the function where the pushed state
+// is a concrete function value (root) down to the helper that appends it.
+type pushEvent struct {
+	root    *ssa.Function
+	chain   []*ssa.Call // outermost first; empty when the push is written out in root itself
+	targets []*ssa.Function
+}
+
+// valueThrough: v (a value of the innermost frame of chain) expressed in the outermost frame possible: parameters are
+// replaced by the arguments of the call sites, innermost first. Returns the value and the number of frames left.
+func valueThrough(v ssa.Value, chain []*ssa.Call) (ssa.Value, int) {
+	n := len(chain)
+	for n > 0 {
+		p, ok := v.(*ssa.Parameter)
+		if !ok {
+			break
+		}
+		c := chain[n-1]
+		g := c.Call.StaticCallee()
+		idx := -1
+		for i, q := range g.Params {
+			if q == p {
+				idx = i
+			}
+		}
+		if idx < 0 || idx >= len(c.Call.Args) {
+			break
+		}
+		v = c.Call.Args[idx]
+		n--
+	}
+	return v, n
+}
+
+// chainsTo: the call-site chains (at most 3 frames) through unexported helpers that end in fn, each starting at a
+// function that is not itself only a forwarding helper; the empty chain stands for fn itself.
+func chainsTo(r *core.Run, fn *ssa.Function, need func(chain []*ssa.Call) bool, depth int) [][]*ssa.Call {
+	if !need(nil) || depth >= 3 || fn.Object() != nil && fn.Object().Exported() {
+		return [][]*ssa.Call{nil}
+	}
+	sites := callSitesOf(r, fn)
+	if len(sites) == 0 {
+		return [][]*ssa.Call{nil}
+	}
+	var out [][]*ssa.Call
+	for _, c := range sites {
+		c := c
+		for _, up := range chainsTo(r, c.Parent(), func(ch []*ssa.Call) bool { return need(append(append([]*ssa.Call{}, ch...), c)) }, depth+1) {
+			out = append(out, append(append([]*ssa.Call{}, up...), c))
+		}
+	}
+	return out
+}
+
+func (m *cssModel) pushEvents(r *core.Run, fn *ssa.Function, op stackOp) []pushEvent {
+	// extend the chain while the pushed value is still a parameter of the outermost frame
+	need := func(chain []*ssa.Call) bool {
+		// chain here is innermost-last relative to fn; the value must be looked at in the outermost frame
+		v, _ := valueThrough(op.val, chain)
+		_, isParam := v.(*ssa.Parameter)
+		return isParam
+	}
+	var out []pushEvent
+	for _, ch := range chainsTo(r, fn, need, 0) {
+		v, _ := valueThrough(op.val, ch)
+		root := fn
+		if len(ch) > 0 {
+			root = ch[0].Parent()
+		}
+		out = append(out, pushEvent{root: root, chain: ch, targets: resolveStateFuncs(r, v, 0)})
+	}
+	return out
 }
 
 var cssModels = map[*core.Program]*cssModel{}
@@ -152,7 +227,7 @@ func cssModelOf(r *core.Run) *cssModel {
 	if m, ok := cssModels[r.Prog]; ok {
 		return m
 	}
-	m := &cssModel{ops: map[*ssa.Function][]stackOp{}, pushTargets: map[ssa.Instruction][]*ssa.Function{}, pushed: map[*ssa.Function]bool{}, bottom: map[*ssa.Function]bool{}}
+	m := &cssModel{ops: map[*ssa.Function][]stackOp{}, pushTargets: map[ssa.Instruction][]*ssa.Function{}, pushed: map[*ssa.Function]bool{}, bottom: map[*ssa.Function]bool{}, events: map[ssa.Instruction][]pushEvent{}}
 	cssModels[r.Prog] = m
 	pk := r.Prog.Pkg("css")
 	if pk == nil {
@@ -192,15 +267,27 @@ func cssModelOf(r *core.Run) *cssModel {
 			if op.kind != "push" {
 				continue
 			}
-			ts := resolveStateFuncs(r, op.val, 0)
-			m.pushTargets[op.in] = ts
-			for _, t := range ts {
-				if fn == m.ctor {
-					m.bottom[t] = true
-				} else {
-					m.pushed[t] = true
+			evs := m.pushEvents(r, fn, op)
+			var ts []*ssa.Function
+			okAll := len(evs) > 0
+			for _, ev := range evs {
+				if ev.targets == nil {
+					okAll = false
+				}
+				ts = append(ts, ev.targets...)
+				for _, t := range ev.targets {
+					if ev.root == m.ctor {
+						m.bottom[t] = true
+					} else {
+						m.pushed[t] = true
+					}
 				}
 			}
+			if !okAll {
+				ts = nil
+			}
+			m.pushTargets[op.in] = ts
+			m.events[op.in] = evs
 		}
 	}
 	return m
@@ -321,7 +408,7 @@ func stackCSS(r *core.Run) {
 			}
 		}
 	}
-	r.Floor("css state pushes", npush, 3)
+	r.Floor("css state pushes", npush, 2)
 	for f := range m.bottom {
 		r.Check(!m.pushed[f], "bottom state "+f.Name()+" is never pushed", f.Pos(), "", "a bottom state function is also pushed: its unguarded handling of the end of input would run with a block open")
 	}
@@ -337,11 +424,30 @@ func stackCSS(r *core.Run) {
 			}
 		}
 	}
-	// every pop: on behalf of a pushed state function (its own entry is on the stack above the bottom), or guarded by 1 < len(stack)
+	// every pop, on every call chain that reaches it: on behalf of a pushed state function (its own entry is on the stack
+	// above the bottom), or guarded by 1 < len(stack) somewhere on the chain
 	for i, p := range pops {
 		key := fmt.Sprintf("css pop #%d", i+1)
-		if _, own := m.ctxOf(r, p.fn, 0); own {
-			// at most one pop per path
+		chains := m.popChains(r, p.fn)
+		allOwn := true
+		for ci, ch := range chains {
+			root := p.fn
+			if len(ch) > 0 {
+				root = ch[0].Parent()
+			}
+			if m.pushed[root] && !m.bottom[root] {
+				continue
+			}
+			allOwn = false
+			ck := key
+			if len(chains) > 1 {
+				ck = fmt.Sprintf("%s via %s", key, fnLabel(root))
+			}
+			_ = ci
+			r.Check(m.guardedAbove(p.op.in, ch), ck+" (guarded by 1 < len(stack))", p.op.in.Pos(), "", fmt.Sprintf("%s pops the state stack (reached from %s) neither on behalf of a pushed state function nor under the guard 1 < len(stack): the bottom state can be removed and the next Next() indexes stack[-1]", fnLabel(p.fn), fnLabel(root)))
+		}
+		if allOwn || len(chains) > 0 {
+			// at most one pop per path of the popping function
 			twice := false
 			pathFlow(p.fn, pstate{}, func(s pstate, in ssa.Instruction) pstate {
 				for _, o := range m.ops[p.fn] {
@@ -355,35 +461,35 @@ func stackCSS(r *core.Run) {
 					twice = true
 				}
 			})
-			r.Check(!twice, key+" (own state, once per path)", p.op.in.Pos(), "", "a path pops the state stack twice")
-			continue
+			r.Check(!twice, key+" (once per path)", p.op.in.Pos(), "", "a path pops the state stack twice")
 		}
-		fs := blockFacts(p.op.in.Block())
-		guard := false
-		for _, f := range fs {
-			if f.NE {
-				continue
-			}
-			// len(stack) - 2 >= 0
-			if len(f.L.T) == 1 && f.L.C <= -2 {
-				for a, c := range f.L.T {
-					if c == 1 && strings.HasSuffix(a, "."+m.stack+")") {
-						guard = true
-					}
-				}
-			}
-		}
-		r.Check(guard, key+" (guarded by 1 < len(stack))", p.op.in.Pos(), "", fmt.Sprintf("%s pops the state stack neither on behalf of a pushed state function nor under the guard 1 < len(stack): the bottom state can be removed and the next Next() indexes stack[-1]", fnLabel(p.fn)))
 	}
-	r.Floor("css state pops", len(pops), 3)
+	r.Floor("css state pops", len(pops), 1)
 	// Next indexes stack[len-1] only
 	if nx := r.Prog.SSAFunc("css", "Parser", "Next"); nx != nil {
 		ok := false
-		for _, b := range nx.Blocks {
-			for _, in := range b.Instrs {
-				if ia, isIA := in.(*ssa.IndexAddr); isIA && strings.HasSuffix(canon(ia.X), "."+m.stack) {
-					l := linOf(ia.Index)
-					ok = len(l.T) == 1 && l.C == -1
+		topIndexIn := func(f *ssa.Function) bool {
+			res := false
+			for _, b := range f.Blocks {
+				for _, in := range b.Instrs {
+					if ia, isIA := in.(*ssa.IndexAddr); isIA && strings.HasSuffix(canon(ia.X), "."+m.stack) {
+						l := linOf(ia.Index)
+						res = len(l.T) == 1 && l.C == -1
+					}
+				}
+			}
+			return res
+		}
+		ok = topIndexIn(nx)
+		if !ok {
+			// through an accessor: p.currentState()(p)
+			for _, b := range nx.Blocks {
+				for _, in := range b.Instrs {
+					if c, isC := in.(*ssa.Call); isC {
+						if g := c.Call.StaticCallee(); g != nil && len(g.Blocks) == 1 && recvName(g) == "Parser" && topIndexIn(g) {
+							ok = true
+						}
+					}
 				}
 			}
 		}
@@ -440,6 +546,80 @@ func constsAfterR(r *core.Run, from ssa.Instruction, site *ssa.Call, depth int) 
 	return out, ok
 }
 
+// unitsAfterChain: the constant first results of the returns reachable from `from`, where a returned parameter is
+// resolved through the call sites of chain (innermost last) and a helper without results is continued after its call site.
+func unitsAfterChain(from ssa.Instruction, chain []*ssa.Call) ([]int64, bool) {
+	var out []int64
+	ok := true
+	forwardReturns(from, func(ret *ssa.Return) {
+		if len(ret.Results) == 0 {
+			if len(chain) == 0 {
+				ok = false
+				return
+			}
+			ks, k := unitsAfterChain(chain[len(chain)-1], chain[:len(chain)-1])
+			if !k {
+				ok = false
+			}
+			out = append(out, ks...)
+			return
+		}
+		v, _ := valueThrough(ret.Results[0], chain)
+		if c, isCall := v.(*ssa.Call); isCall {
+			// return p.endBlock(End): the callee's own returns
+			_ = c
+		}
+		c, isC := v.(*ssa.Const)
+		if !isC || !ssaIntConst(c) {
+			ok = false
+			return
+		}
+		out = append(out, c.Int64())
+	})
+	return out, ok
+}
+
+// popChains: the call-site chains leading to a pop, extended upwards until the outermost function is a state
+// function (pushed or bottom) or has no module callers.
+func (m *cssModel) popChains(r *core.Run, fn *ssa.Function) [][]*ssa.Call {
+	need := func(chain []*ssa.Call) bool {
+		root := fn
+		if len(chain) > 0 {
+			root = chain[0].Parent()
+		}
+		return !m.pushed[root] && !m.bottom[root]
+	}
+	return chainsTo(r, fn, need, 0)
+}
+
+// guardedAbove: `1 < len(stack)` holds at the instruction or at one of the call sites of the chain.
+func (m *cssModel) guardedAbove(at ssa.Instruction, chain []*ssa.Call) bool {
+	check := func(b *ssa.BasicBlock) bool {
+		for _, f := range blockFacts(b) {
+			if f.NE {
+				continue
+			}
+			if len(f.L.T) == 1 && f.L.C <= -2 {
+				for a, c := range f.L.T {
+					if c == 1 && strings.HasSuffix(a, "."+m.stack+")") {
+						return true
+					}
+				}
+			}
+		}
+		return false
+	}
+	if check(at.Block()) {
+		return true
+	}
+	for _, c := range chain {
+		if check(c.Block()) {
+			return true
+		}
+	}
+	return false
+}
+
 func runBeginEnd(r *core.Run) {
 	pk := r.Prog.Pkg("css")
 	m := cssModelOf(r)
@@ -454,7 +634,8 @@ func runBeginEnd(r *core.Run) {
 	}
 	begin := map[*ssa.Function]string{} // pushed state function -> the Begin unit returned when it is pushed
 	n := 0
-	// pushes: every path from the push to a return yields one Begin unit
+	// pushes: on every call chain, every path from the push to a return yields one Begin unit
+	np0 := 0
 	for _, fn := range m.fns {
 		if fn == m.ctor {
 			continue
@@ -463,24 +644,37 @@ func runBeginEnd(r *core.Run) {
 			if op.kind != "push" || m.pushTargets[op.in] == nil {
 				continue
 			}
-			n++
-			key := fmt.Sprintf("css push #%d returns a Begin unit", n)
-			ks, ok := constsAfterR(r, op.in, nil, 0)
-			unit := ""
-			for _, k := range ks {
-				nm := gtName[k]
-				if !strings.HasPrefix(nm, "Begin") || unit != "" && unit != nm {
-					ok = false
+			np0++
+			for ei, ev := range m.events[op.in] {
+				if ev.root == m.ctor {
+					continue
 				}
-				unit = nm
-			}
-			r.Check(ok && unit != "", key, op.in.Pos(), "returns "+unit, fmt.Sprintf("after pushing a state in %s some return does not yield one Begin… unit: the consumer's nesting depth and the parser's stack disagree", fnLabel(fn)))
-			if ok {
-				for _, t := range m.pushTargets[op.in] {
-					if prev, has := begin[t]; has && prev != unit {
-						r.Fail("Begin unit of "+t.Name(), op.in.Pos(), fmt.Sprintf("%s is pushed with %s here and with %s elsewhere", t.Name(), unit, prev))
+				n++
+				key := fmt.Sprintf("css push #%d returns a Begin unit", np0)
+				if len(m.events[op.in]) > 1 {
+					key = fmt.Sprintf("css push #%d (%d) returns a Begin unit", np0, ei+1)
+				}
+				ks, ok := unitsAfterChain(op.in, ev.chain)
+				unit := ""
+				for _, k := range ks {
+					nm := gtName[k]
+					if !strings.HasPrefix(nm, "Begin") || unit != "" && unit != nm {
+						ok = false
 					}
-					begin[t] = unit
+					unit = nm
+				}
+				at := op.in.Pos()
+				if len(ev.chain) > 0 {
+					at = ev.chain[0].Pos()
+				}
+				r.Check(ok && unit != "", key, at, "returns "+unit, fmt.Sprintf("after pushing a state (in %s, reached from %s) some return does not yield one Begin… unit: the consumer's nesting depth and the parser's stack disagree", fnLabel(fn), fnLabel(ev.root)))
+				if ok {
+					for _, t := range ev.targets {
+						if prev, has := begin[t]; has && prev != unit {
+							r.Fail("Begin unit of "+t.Name(), at, fmt.Sprintf("%s is pushed with %s here and with %s elsewhere", t.Name(), unit, prev))
+						}
+						begin[t] = unit
+					}
 				}
 			}
 		}
@@ -493,65 +687,76 @@ func runBeginEnd(r *core.Run) {
 				continue
 			}
 			np++
-			n++
 			key := fmt.Sprintf("css pop #%d", np)
-			ctx, own := m.ctxOf(r, fn, 0)
-			if !own {
-				// guarded pops outside state functions are error recoveries: every path from the pop to a return records an error
-				errSet := true
-				seen := map[*ssa.BasicBlock]bool{}
-				var walk func(b *ssa.BasicBlock)
-				walk = func(b *ssa.BasicBlock) {
-					if seen[b] {
-						return
-					}
-					seen[b] = true
-					for _, in := range b.Instrs {
-						if st, ok := in.(*ssa.Store); ok && m.errField != "" && strings.HasSuffix(canon(st.Addr), "."+m.errField) {
-							return
-						}
-						if c, ok := in.(*ssa.Call); ok && m.errField != "" && recordsError(c.Call.StaticCallee(), m.errField, 0) {
-							return // a helper that records the error (p.fail(msg, offset))
-						}
-						if _, ok := in.(*ssa.Return); ok {
-							errSet = false
-							return
-						}
-					}
-					for _, s := range b.Succs {
-						walk(s)
-					}
+			chains := m.popChains(r, fn)
+			for ci, ch := range chains {
+				root := fn
+				if len(ch) > 0 {
+					root = ch[0].Parent()
 				}
-				walk(op.in.Block())
-				r.Check(errSet, key+" (error recovery records a parse error)", op.in.Pos(), "", "the stack is popped outside a state function without recording a parse error in the same step")
-				continue
-			}
-			// on behalf of each state function in ctx: the returns after the pop yield the End unit matching its Begin unit
-			good, why := true, ""
-			check := func(t *ssa.Function, site *ssa.Call) {
-				want := "End" + strings.TrimPrefix(begin[t], "Begin")
-				ks, ok := constsAfterR(r, op.in, site, 0)
+				n++
+				ck := key
+				if len(chains) > 1 {
+					ck = fmt.Sprintf("%s (%d)", key, ci+1)
+				}
+				at := op.in.Pos()
+				if len(ch) > 0 {
+					at = ch[0].Pos()
+				}
+				if !(m.pushed[root] && !m.bottom[root]) || m.guardedAbove(op.in, ch) {
+					// guarded pops (and pops outside state functions) are error recoveries: every path from the pop to a return records an error
+					errSet := true
+					var walkFrom func(from ssa.Instruction, chain []*ssa.Call)
+					walkFrom = func(from ssa.Instruction, chain []*ssa.Call) {
+						seen := map[*ssa.BasicBlock]bool{}
+						var walk func(b *ssa.BasicBlock, start int)
+						walk = func(b *ssa.BasicBlock, start int) {
+							if start == 0 {
+								if seen[b] {
+									return
+								}
+								seen[b] = true
+							}
+							for _, in := range b.Instrs[start:] {
+								if st, ok := in.(*ssa.Store); ok && m.errField != "" && strings.HasSuffix(canon(st.Addr), "."+m.errField) {
+									return
+								}
+								if c, ok := in.(*ssa.Call); ok && m.errField != "" && recordsError(c.Call.StaticCallee(), m.errField, 0) {
+									return
+								}
+								if _, ok := in.(*ssa.Return); ok {
+									if len(chain) > 0 {
+										c := chain[len(chain)-1]
+										walkFromCall(c, chain[:len(chain)-1], &errSet, m, walkFrom)
+									} else {
+										errSet = false
+									}
+									return
+								}
+							}
+							for _, s := range b.Succs {
+								walk(s, 0)
+							}
+						}
+						walk(from.Block(), instrIndex(from)+1)
+					}
+					walkFrom(op.in, ch)
+					r.Check(errSet, ck+" (error recovery records a parse error)", at, "", "the stack is popped outside a state function without recording a parse error in the same step")
+					continue
+				}
+				want := "End" + strings.TrimPrefix(begin[root], "Begin")
+				ks, ok := unitsAfterChain(op.in, ch)
+				why := ""
 				if !ok {
-					good, why = false, "a return after the pop does not yield a constant unit"
+					why = "a return after the pop does not yield a constant unit"
 				}
 				for _, k := range ks {
 					if gtName[k] != want {
-						good, why = false, fmt.Sprintf("on behalf of %s (pushed with %s) a return after the pop yields %s, not %s", t.Name(), begin[t], gtName[k], want)
+						ok, why = false, fmt.Sprintf("on behalf of %s (pushed with %s) a return after the pop yields %s, not %s", root.Name(), begin[root], gtName[k], want)
 					}
 				}
+				r.Check(ok, ck+" returns the matching End unit", at, "", "after popping a block's state "+why+": a Begin unit is left without its End unit")
 			}
-			if m.pushed[fn] {
-				check(fn, nil)
-			} else {
-				for _, c := range callSitesOf(r, fn) {
-					cs, _ := m.ctxOf(r, c.Parent(), 0)
-					for t := range cs {
-						check(t, c)
-					}
-				}
-			}
-			_ = ctx
-			r.Check(good, key+" returns the matching End unit", op.in.Pos(), "", "after popping a block's state "+why+": a Begin unit is left without its End unit")
 		}
 	}
 	// a pushed state function returns an End unit only after popping (directly or in the helper it returns from)
@@ -576,6 +781,11 @@ func runBeginEnd(r *core.Run) {
 		}
 	}
 	r.Floor("push/pop pairing sites", n, 8)
+}
+
+// walkFromCall continues the error-recording walk after a call site in the caller.
+func walkFromCall(c *ssa.Call, chain []*ssa.Call, errSet *bool, m *cssModel, walkFrom func(ssa.Instruction, []*ssa.Call)) {
+	walkFrom(c, chain)
 }
 
 // forwardReturns visits every Return reachable from instruction `from`.
